@@ -234,6 +234,7 @@ type St struct {
 	ip  int
 	env map[ssa.Value]Value
 	ver int // bumped whenever the state changes (executed or merged)
+	pruned  int // ver+1 at which dead bindings were dropped
 	settled int // ver+1 at which the state was found unmergeable with every other state at its point
 	sp  []*T
 	spc *T
@@ -247,6 +248,20 @@ type deferred struct {
 type DeferV struct{ list []deferred }
 
 var deferKey ssa.Value = &ssa.Const{}
+
+// non-escaping allocations of a frame (ssa.Alloc with Heap == false) are freed when the frame returns, so
+// that dead locals of different shapes do not keep paths apart; their ids live in the env under localsKey
+type LocalsV struct{ ids []int }
+
+var localsKey ssa.Value = &ssa.Const{}
+
+func freeLocals(s *St) {
+	if lv, ok := s.env[localsKey].(LocalsV); ok {
+		for _, id := range lv.ids {
+			delete(s.heap, id)
+		}
+	}
+}
 
 type panicInfo struct {
 	val       Value
@@ -277,6 +292,71 @@ type fnInfo struct {
 	// shapeRel: integers that determine shapes (slice bounds, string/byte-slice indexes, make sizes);
 	// two states are not merged if that would turn such a value from two constants into an ite.
 	shapeRel map[ssa.Value]bool
+	liveIn   map[*ssa.BasicBlock]map[ssa.Value]bool // SSA values live at block entry (after the phis)
+}
+
+// liveness: backward data-flow over the SSA; a value is live at the entry of a block (after its phis) if some
+// path from there uses it. Dead bindings are dropped before states are merged, so that temporaries of
+// different shapes do not keep paths apart.
+func liveness(fn *ssa.Function) map[*ssa.BasicBlock]map[ssa.Value]bool {
+	liveIn := map[*ssa.BasicBlock]map[ssa.Value]bool{}
+	for _, b := range fn.Blocks {
+		liveIn[b] = map[ssa.Value]bool{}
+	}
+	tracked := func(v ssa.Value) bool {
+		switch v.(type) {
+		case *ssa.Const, *ssa.Global, *ssa.Function, *ssa.Builtin:
+			return false
+		}
+		return v != nil
+	}
+	for changed := true; changed; {
+		changed = false
+		for i := len(fn.Blocks) - 1; i >= 0; i-- {
+			b := fn.Blocks[i]
+			live := map[ssa.Value]bool{}
+			for _, sb := range b.Succs {
+				for v := range liveIn[sb] {
+					live[v] = true
+				}
+				// phi operands coming from this block are used on the edge
+				for _, in := range sb.Instrs {
+					phi, ok := in.(*ssa.Phi)
+					if !ok {
+						break
+					}
+					for k, p := range sb.Preds {
+						if p == b && tracked(phi.Edges[k]) {
+							live[phi.Edges[k]] = true
+						}
+					}
+				}
+			}
+			for k := len(b.Instrs) - 1; k >= 0; k-- {
+				in := b.Instrs[k]
+				if _, isPhi := in.(*ssa.Phi); isPhi {
+					break // liveIn is taken after the phis; their operands live on the incoming edges
+				}
+				if v, ok := in.(ssa.Value); ok {
+					delete(live, v)
+				}
+				for _, op := range in.Operands(nil) {
+					if *op != nil && tracked(*op) {
+						live[*op] = true
+					}
+				}
+			}
+			// phi results that are live stay live (they are defined at entry, before "after the phis")
+			cur := liveIn[b]
+			for v := range live {
+				if !cur[v] {
+					cur[v] = true
+					changed = true
+				}
+			}
+		}
+	}
+	return liveIn
 }
 
 func isStringOrBytes(t types.Type) bool {
@@ -475,6 +555,7 @@ func (e *Engine) analyse(fn *ssa.Function) *fnInfo {
 		}
 	}
 	fi.shapeRel = shapeRelevant(fn)
+	fi.liveIn = liveness(fn)
 	e.info[fn] = fi
 	return fi
 }
@@ -493,19 +574,19 @@ func (e *Engine) mergeSt(a, b *St) bool {
 		ca, cb = sa[k], sb[k]
 	}
 	if a.txStore0 != b.txStore0 || len(a.pending) != len(b.pending) {
-		return false
+		return mergeFail(1, a)
 	}
 	for i := range a.pending {
 		if a.pending[i].present != b.pending[i].present || !(bytesEq(a.pending[i].hash, b.pending[i].hash) == tTrue) {
-			return false
+			return mergeFail(2, a)
 		}
 	}
 	if len(a.txGas0) != len(b.txGas0) {
-		return false
+		return mergeFail(3, a)
 	}
 	for k, v := range a.txGas0 {
 		if b.txGas0[k] != v {
-			return false
+			return mergeFail(4, a)
 		}
 	}
 	// heap: same objects, mergeable contents
@@ -520,31 +601,45 @@ func (e *Engine) mergeSt(a, b *St) bool {
 		case CellObj:
 			y, ok := ob.(CellObj)
 			if !ok {
-				return false
+				return mergeFail(5, a)
 			}
 			m, ok := mergeVal(ca, x.v, y.v)
 			if !ok {
-				return false
+				if progress {
+					nm := "?"
+					for k, v := range a.env {
+						if p, isP := v.(PtrV); isP && p.id == id && k != nil {
+							nm = k.Name() + " " + k.String()
+						}
+					}
+					for g, gid := range e.globals {
+						if gid == id {
+							nm = "global " + g.Name()
+						}
+					}
+					mergeFails[fmt.Sprintf("cell %s: %T vs %T", nm, x.v, y.v)]++
+				}
+				return mergeFail(6, a)
 			}
 			heap[id] = CellObj{m}
 		case ArrObj:
 			y, ok := ob.(ArrObj)
 			if !ok || len(x.e) != len(y.e) {
-				return false
+				return mergeFail(7, a)
 			}
 			m, ok := mergeVals(ca, x.e, y.e, func(f []Value) Value { return f })
 			if !ok {
-				return false
+				return mergeFail(8, a)
 			}
 			heap[id] = ArrObj{m.([]Value)}
 		case IterObj:
 			y, ok := ob.(IterObj)
 			if !ok || x.pos != y.pos || len(x.items) != len(y.items) {
-				return false
+				return mergeFail(9, a)
 			}
 			heap[id] = x
 		default:
-			return false
+			return mergeFail(10, a)
 		}
 	}
 	for id, ob := range b.heap {
@@ -561,13 +656,16 @@ func (e *Engine) mergeSt(a, b *St) bool {
 		if k != nil && a.blk != nil && e.info[a.blk.Parent()] != nil && e.info[a.blk.Parent()].shapeRel[k] {
 			if x, ok := va.(IntV); ok {
 				if y, ok := vb.(IntV); ok && x.t != y.t {
-					return false // would make a shape-determining integer symbolic
+					return mergeFail(99, a)
 				}
 			}
 		}
 		m, ok := mergeVal(ca, va, vb)
 		if !ok {
-			return false
+			if progress && k != nil {
+				mergeFails[fmt.Sprintf("env %s.%s = %s: %s vs %s", a.blk.Parent().Name(), k.Name(), k.String(), shapeStr(va), shapeStr(vb))]++
+			}
+			return mergeFail(11, a)
 		}
 		env[k] = m
 	}
@@ -590,6 +688,19 @@ func (e *Engine) mergeSt(a, b *St) bool {
 		pending: a.pending, txStore0: a.txStore0, txGas0: a.txGas0}
 	e.stats.merges++
 	return true
+}
+
+var mergeFails = map[string]int{}
+
+func mergeFail(site int, a *St) bool {
+	if progress {
+		fn := ""
+		if a.blk != nil {
+			fn = a.blk.Parent().Name()
+		}
+		mergeFails[fmt.Sprintf("%s#%d", fn, site)]++
+	}
+	return false
 }
 
 // ---------- frame execution ----------
@@ -660,6 +771,34 @@ func (e *Engine) runFrame(fn *ssa.Function, args []Value, s *State) []Out {
 				group = append(group, o)
 			} else {
 				active = append(active, o)
+			}
+		}
+		if len(group) > 1 { // drop dead bindings (block entry only: the liveness facts are per block)
+			for _, g := range group {
+				if g.pruned == g.ver+1 || g.blk == nil {
+					continue
+				}
+				nphi := 0
+				for nphi < len(g.blk.Instrs) {
+					if _, ok := g.blk.Instrs[nphi].(*ssa.Phi); !ok {
+						break
+					}
+					nphi++
+				}
+				if g.ip != nphi {
+					continue
+				}
+				live := fi.liveIn[g.blk]
+				for k := range g.env {
+					if k == deferKey || k == localsKey || k == nil || live[k] {
+						continue
+					}
+					if _, isPhi := k.(*ssa.Phi); isPhi && k.(*ssa.Phi).Block() == g.blk && live[k] {
+						continue
+					}
+					delete(g.env, k)
+				}
+				g.pruned = g.ver + 1
 			}
 		}
 		// merge the states standing at this point: sorted by path condition (conjunct by conjunct) close
@@ -1002,14 +1141,20 @@ func (e *Engine) execBlock(fn *ssa.Function, s *St) ([]succ, []Out) {
 		switch in := blk.Instrs[ip].(type) {
 		case *ssa.Alloc:
 			et := in.Type().(*types.Pointer).Elem()
+			var id int
 			if at, ok := et.Underlying().(*types.Array); ok {
 				el := make([]Value, at.Len())
 				for i := range el {
 					el[i] = zeroOf(at.Elem())
 				}
-				s.env[in] = PtrV{id: e.alloc(s.State, ArrObj{el})}
+				id = e.alloc(s.State, ArrObj{el})
 			} else {
-				s.env[in] = PtrV{id: e.alloc(s.State, CellObj{zeroOf(et)})}
+				id = e.alloc(s.State, CellObj{zeroOf(et)})
+			}
+			s.env[in] = PtrV{id: id}
+			if !in.Heap {
+				lv, _ := s.env[localsKey].(LocalsV)
+				s.env[localsKey] = LocalsV{append(append([]int(nil), lv.ids...), id)}
 			}
 		case *ssa.FieldAddr:
 			p := e.get(s, in.X).(PtrV)
@@ -1302,9 +1447,12 @@ func (e *Engine) execBlock(fn *ssa.Function, s *St) ([]succ, []Out) {
 				}
 				v = t
 			}
+			freeLocals(s)
 			return nil, []Out{{s.State, false, v}}
 		case *ssa.Panic:
-			return nil, []Out{{s.State, true, e.get(s, in.X)}}
+			pv := e.get(s, in.X)
+			freeLocals(s)
+			return nil, []Out{{s.State, true, pv}}
 		default:
 			panic(fmt.Sprintf("unsupported instr %T: %s", in, in))
 		}
@@ -1689,4 +1837,26 @@ func (e *Engine) concretize(s *State, t *T, limit int) []int64 {
 		}
 		blocked = And(blocked, Not(Eq(t, I(v.Int64()))))
 	}
+}
+
+func shapeStr(v Value) string {
+	switch x := v.(type) {
+	case BytesV:
+		return fmt.Sprintf("bytes[%d]", len(x.b))
+	case StructV:
+		s := "struct{"
+		for _, f := range x.f {
+			s += shapeStr(f) + ","
+		}
+		return s + "}"
+	case TupleV:
+		s := "tuple("
+		for _, f := range x.f {
+			s += shapeStr(f) + ","
+		}
+		return s + ")"
+	case ListV:
+		return fmt.Sprintf("list#%d", x.id)
+	}
+	return fmt.Sprintf("%T", v)
 }
